@@ -34,8 +34,20 @@ Qed.
 Theorem gen_distance_eq m p : gen_distance m p = distance m p.
 Proof. unfold gen_distance, distance. destruct m as [[[| |] r]|]; cbn [fst snd mtype_eqb]; reflexivity. Qed.
 
+(* the public wrapper: gate, direction -> section, result with its distance *)
+Theorem gen_fingerprint_tcp_eq md db frag ty p : gen_fingerprint_tcp md db frag ty p = fp_tcp md db frag ty p.
+Proof.
+  unfold gen_fingerprint_tcp, fp_tcp. rewrite gen_valid_for_tcp_fingerprint_eq.
+  destruct (valid_tcp_fp frag ty); cbn [negb]; [|reflexivity].
+  cbv zeta. change (Z.eqb ty 2) with (ty =? fSYN).
+  destruct (ty =? fSYN).
+  - destruct (db_req db) as [recs|]; [|reflexivity]. rewrite gen_find_tcp_match_eq, gen_distance_eq. reflexivity.
+  - destruct (db_resp db) as [recs|]; [|reflexivity]. rewrite gen_find_tcp_match_eq, gen_distance_eq. reflexivity.
+Qed.
+
 Print Assumptions gen_guess_distance_eq.
 Print Assumptions gen_should_fingerprint_eq.
 Print Assumptions gen_valid_for_tcp_fingerprint_eq.
 Print Assumptions gen_find_tcp_match_eq.
 Print Assumptions gen_distance_eq.
+Print Assumptions gen_fingerprint_tcp_eq.
